@@ -18,6 +18,14 @@ hist.update({'m4_C01d':'caught as built (also by C15 and C05)','m4_C03d':'caught
 summ.update({'m4_C01d':'compare.Compare string fast path returns a length difference instead of -1/0/1 when one string is a prefix of the other','m4_C03d':'a new group aliases a one-row window of the input slice: appends for later members overwrite following input rows','m4_C04d':'nested-loop join reuses one merged-row map for all partners of a left row',
 'm4_C06d':'UNION skips de-duplication when one branch is empty','m4_C08d':'the per-inner-array query copy gets fresh Options without vars/completion callback','m4_C09d':'{k|number} tries ParseInt(str, 0, 64) first: "010" is 8, "0x1F" is 31','m4_C12d':'ValueTupleExpr leaves *float64 results of arithmetic inside IN lists unresolved',
 'm4_C14d':'derived table waits for its subquery goroutines only if it registered post-processors','m4_C15d':'number-vs-string comparison formats float32 at 64 bits (0.1 becomes 0.10000000149011612)','m4_C16d':'the rune after a closing single quote is swallowed by the placeholder lexer','m4_C18d':'IF(true, NULL, y) falls through to y','m4_C20d':'register keys truncate numeric names to their integer part'})
+
+hist.update({'m5_C01e':'caught as built','m5_C11e':'caught as built','m5_C19e':'caught as built',
+'m5_C02e':'missed (shift counts were assumed < 64) → any non-negative shift count in H_C02_intops','m5_C04e':'missed; engine lacked %#v (sampled passing paths failed natively: reported inconclusive) → %#v of strings in the engine, H_C04_mixedkinds','m5_C05e':'missed (LIMIT/OFFSET were bounded by 2^31) → any int in [0,2^63) in the C05 and C09 harnesses',
+'m5_C06e':'missed by C06 (caught by C05 as built) → LIMIT/OFFSET windows on DISTINCT and on UNION in H_C06_distinct_num / H_C06_union','m5_C07e':'missed → CTE shadowing a document key, WITH nested in a derived table added to H_C07_shapes','m5_C10e':'missed → H_C10_queries2 (32 more unusual queries incl. outer INTO joins with unmatched rows), H_C10_arity (every built-in × 14 argument lists × qualifiers); found the genuine AWAIT() panic (fixed 838dc50)',
+'m5_C12e':'missed → NULL/missing operands in arithmetic, CASE, ARRAY, IF, tuples, aggregates added to H_C12_plain','m5_C13e':'missed → H_C13_toplevel (distinct=>, mix=>, ranges, pipes from two threads); race monitor now sees intrinsic methods of shared bytes.Buffer / strings.Builder / sha256 digests','m5_C17e':'missed (needs 6 bytes; quick tier is ≤5) → H_C17_dq_context (identifier after every short prefix); found the genuine adjacent-identifier merge (fixed fc675f8)'})
+summ.update({'m5_C01e':'x NOT IN (c) with a one-element literal list takes an IN shortcut placed before the negation','m5_C02e':'shift counts masked to 6 bits (1 << 64 is 1 instead of 0)','m5_C04e':'hash keys rendered with %#v: 1 and \'1\' no longer meet on the hash path while the nested loop still pairs them','m5_C05e':'window clamp rewritten as offset+limit > len(rs): overflows for LIMIT near MaxInt64 with a non-zero OFFSET',
+'m5_C06e':'DISTINCT stops collecting at LIMIT rows, ignoring OFFSET','m5_C07e':'BuildCte skips a CTE whose name is already a key of the scope (document key or outer CTE)','m5_C10e':'HashJoinMatchFunc dereferences the right key map unconditionally: outer INTO join with an unmatched row panics out of New',
+'m5_C11e':'New works on the caller\'s map unless the top-level statement is a plain SELECT with WITH: CTEs on a UNION or in a derived table are written into the caller\'s document','m5_C12e':'ValueOf returns the typed nil *float64 of NULL arithmetic instead of untyped nil','m5_C13e':'distinct=> reuses one package-level sha256 hasher','m5_C17e':'DoubleQuotesToBackTick applies backslash escapes inside backtick identifiers','m5_C19e':'JoinMatchFunc returns the partial matches together with the ON error; the caller tests ok before err'})
 rows=[]
 for d in sorted(glob.glob('/verif/seeded/m*')):
     n=os.path.basename(d)
